@@ -1,12 +1,716 @@
-//! C01 correspondence streams: the lexical / syntactic core against the Lean models (all inputs in domain).
+//! C01 correspondence streams: every modelled lexer / string-lexer / parser entry point against the real
+//! function on ARBITRARY input. All inputs are in C01's domain (the property quantifies over all byte strings),
+//! so every stream is `in_domain = true`. Compared: outcome class (ok / err / panic) + value + final cursor.
+//!
+//!   c01.lex.exhaustive   every buffer of length ≤ 2 (thorough: + length 3 over a 24-letter alphabet) × every cursor ×
+//!                        next, peek, back, next_stream, seek_newline, ctx, StringLexer::next_lexeme,
+//!                        HexStringLexer::next_hex_byte, the two string loops, parse (ANY), read_n, set_pos,
+//!                        offset_pos, set_pos_from_end, seek_substr, seek_substr_back, next_expect
+//!   c01.lex.random       random bytes (half of them over a structural alphabet), random cursor, one of the above
+//!   c01.lex.soup         token soup (the C03 generator), random cursor, one of the above
+//!   c01.str              junk for the string lexers: escapes, line continuations (runs of up to 3000), parentheses,
+//!                        hex digits and non-digits; single steps and loops
+//!   c01.parse.random     parse / parse_indirect_object (strict, tolerant) / parse_stream on random bytes and soup,
+//!                        random flag sets, random cursors, random /Length resolver tables
+//!   c01.parse.mutated    renderings of random values (the C03 printer) with 1–3 byte-level mutations
+//!   c01.parse.corpus     slices of the fixture files (raw and normalised) at object starts and at random offsets
+//!   c01.parse.deep       arrays / dictionaries nested 18 … 23 and 60 deep, complete and cut off
+//!   c01.inline           `BI … ID` followed by arbitrary bytes: where the image data ends (through `parse_ops`);
+//!                        dictionaries whose typed entries convert and ones whose do not (a parameter of the model)
+//!   c01.xref             classic cross-reference tables, well-formed and mutated (huge counts, missing entries),
+//!                        and soup, through `read_xref_and_trailer_at`
+//!
+//! Model side: `c03.*` requests are answered by Drv/C03.lean (same models), `c01.*` by Drv/C01.lean.
+//! Oracle `c01.entry`: every call of a real function made for these streams; a panic is a failure of the
+//! property itself (signature `panic@<entry point>`), a call that does not come back within 10 s a `hang@…`.
+//! The real functions run in a worker thread; the first hang ends the run of the streams (the thread cannot be
+//! stopped) and is reported with its request.
 
-use crate::driver::Driver;
-use crate::report::Stream;
+use crate::c03::render::*;
+use crate::c03::{self, gen_soup, gen_stream, gen_val, mutate, parse_request, prim_to_val, render_random, GenCfg, LenMap, TestResolve, TAILS};
+use crate::corpus;
+use crate::driver::{hex, unhex, Driver};
+use crate::report::*;
+use crate::rng::Rng;
+use pdf::content::Op;
+use pdf::parser::{HexStringLexer, Lexer, StringLexer};
+use pdf::primitive::Primitive;
+use serde_json::json;
+use std::panic::{catch_unwind, AssertUnwindSafe};
+use std::sync::mpsc;
+use std::sync::Arc;
+use std::time::Duration;
 
-pub fn streams(_driver: &Driver, _seed: u64, _thorough: bool) -> Vec<Stream> {
-    vec![]
+/// runs `f` in a thread of its own (64 MiB stack); `None` when it has not answered after `secs` seconds (the
+/// thread is abandoned: it ends with the process) or died
+pub fn with_timeout<T: Send + 'static>(secs: u64, f: impl FnOnce() -> T + Send + 'static) -> Option<T> {
+    let (tx, rx) = mpsc::channel();
+    std::thread::Builder::new().stack_size(64 << 20).spawn(move || { let _ = tx.send(f()); }).ok()?;
+    rx.recv_timeout(Duration::from_secs(secs)).ok()
 }
 
-pub fn replay(_driver: &Driver, _r: &serde_json::Value) -> Option<Stream> {
-    None
+/// Which end-of-data search `content::inline_image` of the tree under test uses: `"lf"` = `seek_substr("\nEI")`
+/// (model `inlineImage`), `"ei"` = white-space followed by the token `EI` (repo commit 4386f8d of the C08
+/// follow-up, model `inlineImageEI`). One of the two mirrors the code; set it when that commit is merged.
+const INLINE_SEARCH: &str = "lf";
+
+/// (the environment variable C01_INLINE_SEARCH overrides the constant: for trying a tree before it is merged)
+fn inline_search() -> String {
+    std::env::var("C01_INLINE_SEARCH").unwrap_or_else(|_| INLINE_SEARCH.to_string())
+}
+
+fn guard(f: impl FnOnce() -> String) -> String {
+    catch_unwind(AssertUnwindSafe(f)).unwrap_or_else(|_| "panic".into())
+}
+
+fn lexer_at(buf: &[u8], pos: usize) -> Lexer<'_> {
+    let mut lx = Lexer::new(buf);
+    lx.set_pos(pos);
+    lx
+}
+
+fn range_of(s: &pdf::parser::Substr) -> (usize, usize) {
+    let r = s.file_range();
+    (r.start, r.end)
+}
+
+/// `parse_ops` with `allow_invalid_ops` set as asked (both `ParseOptions::strict()` and `tolerant()` set it)
+fn parse_ops_with(data: &[u8], allow_invalid_ops: bool) -> Result<Vec<Op>, ()> {
+    let mut res = TestResolve::new(&vec![], false);
+    res.opts.allow_invalid_ops = allow_invalid_ops;
+    pdf::content::parse_ops(data, &res).map_err(|_| ())
+}
+
+/// the implementation's answer to a `c01.*` request; `model` is needed where the observable is coarser than the
+/// model's answer (ctx, inline, xref): both sides are then brought to the same comparable form
+fn both_c01(req: &str, model: &str) -> (String, String) {
+    let f: Vec<&str> = req.split(' ').collect();
+    let bytes = |i: usize| f.get(i).and_then(|s| unhex(s)).unwrap_or_default();
+    let num = |i: usize| f.get(i).and_then(|s| s.parse::<usize>().ok()).unwrap_or(0);
+    match f[0] {
+        "c01.seek" => {
+            let (buf, pos, pat) = (bytes(1), num(2), bytes(3));
+            (model.to_string(), guard(|| {
+                let mut lx = lexer_at(&buf, pos);
+                match lx.seek_substr(&pat) {
+                    Some(s) => { let (a, b) = range_of(&s); format!("ok {} {} {}", a, b, lx.get_pos()) }
+                    None => format!("ok none {}", lx.get_pos()),
+                }
+            }))
+        }
+        "c01.seekback" => {
+            let (buf, pos, pat) = (bytes(1), num(2), bytes(3));
+            (model.to_string(), guard(|| {
+                let mut lx = lexer_at(&buf, pos);
+                match lx.seek_substr_back(&pat) {
+                    Ok(s) => { let (a, b) = range_of(&s); format!("ok {} {} {}", a, b, lx.get_pos()) }
+                    Err(_) => "err".into(),
+                }
+            }))
+        }
+        "c01.fromend" => {
+            let (buf, pos, n) = (bytes(1), num(2), num(3));
+            (model.to_string(), guard(|| { let mut lx = lexer_at(&buf, pos); lx.set_pos_from_end(n); format!("ok {}", lx.get_pos()) }))
+        }
+        "c01.newline" => {
+            let (buf, pos) = (bytes(1), num(2));
+            (model.to_string(), guard(|| {
+                let mut lx = lexer_at(&buf, pos);
+                let (a, b) = { let s = lx.seek_newline(); range_of(&s) };
+                format!("ok {} {} {}", a, b, lx.get_pos())
+            }))
+        }
+        "c01.ctx" => {
+            // the observable is the lossy text of the range: the model's range is turned into that text
+            let (buf, pos) = (bytes(1), num(2));
+            let m: Vec<&str> = model.split(' ').collect();
+            let expected = if m.len() == 3 && m[0] == "ok" {
+                match (m[1].parse::<usize>(), m[2].parse::<usize>()) {
+                    (Ok(a), Ok(b)) if a <= b && b <= buf.len() => format!("ok {}", hex(String::from_utf8_lossy(&buf[a..b]).as_bytes())),
+                    _ => format!("unusable:{}", model),
+                }
+            } else { model.to_string() };
+            (expected, guard(|| { let lx = lexer_at(&buf, pos); format!("ok {}", hex(lx.ctx().as_bytes())) }))
+        }
+        "c01.lexeme" => {
+            let (buf, pos) = (bytes(1), num(2).min(bytes(1).len()));
+            (model.to_string(), guard(|| {
+                let mut sl = StringLexer::new(&buf[pos..]);
+                match sl.next_lexeme() {
+                    Ok(Some(b)) => format!("ok {} {}", b, pos + sl.get_offset()),
+                    Ok(None) => format!("ok none {}", pos + sl.get_offset()),
+                    Err(_) => "err".into(),
+                }
+            }))
+        }
+        "c01.hexbyte" => {
+            let (buf, pos) = (bytes(1), num(2).min(bytes(1).len()));
+            (model.to_string(), guard(|| {
+                let mut sl = HexStringLexer::new(&buf[pos..]);
+                match sl.next_hex_byte() {
+                    Ok(Some(b)) => format!("ok {} {}", b, pos + sl.get_offset()),
+                    Ok(None) => format!("ok none {}", pos + sl.get_offset()),
+                    Err(_) => "err".into(),
+                }
+            }))
+        }
+        "c01.inline" => {
+            // model: `ok <a> <b> <p>` (image data buf[a..b], lexer at p) | `fail <p>` (inline_image returned Err)
+            let buf = bytes(2);
+            let m: Vec<&str> = model.split(' ').collect();
+            if m.len() == 4 && m[0] == "ok" {
+                let (a, b, p): (usize, usize, usize) = (m[1].parse().unwrap_or(0), m[2].parse().unwrap_or(0), m[3].parse().unwrap_or(0));
+                if !(a <= b && b <= buf.len() && p <= buf.len()) {
+                    return (format!("unusable:{}", model), "-".into());
+                }
+                // what follows the image is read by the same loop: if that fails the whole call fails
+                let rest_ok = guard(|| if parse_ops_with(&buf[p..], true).is_ok() { "y".into() } else { "n".into() });
+                let expected = if rest_ok == "y" { format!("ok {}", hex(&buf[a..b])) } else if rest_ok == "n" { "err".to_string() } else { "panic-in-rest".to_string() };
+                let imp = guard(|| match parse_ops_with(&buf, true) {
+                    Ok(ops) => match ops.first() {
+                        Some(Op::InlineImage { image }) => match image.inner.data(&pdf::object::NoResolve) {
+                            Ok(d) => format!("ok {}", hex(&d)),
+                            Err(_) => "data-err".into(),
+                        },
+                        _ => "no-image".into(),
+                    },
+                    Err(_) => "err".into(),
+                });
+                (expected, imp)
+            } else if m.len() == 2 && m[0] == "fail" {
+                // strict: the error of `inline_image` is the error of `parse_ops`
+                ("err".into(), guard(|| match parse_ops_with(&buf, false) { Ok(_) => "ok".into(), Err(_) => "err".into() }))
+            } else {
+                (model.to_string(), guard(|| match parse_ops_with(&buf, false) { Ok(_) => "ok".into(), Err(_) => "err".into() }))
+            }
+        }
+        "c01.xref" => {
+            let (buf, pos) = (bytes(1), num(2));
+            let lens: LenMap = f.get(3).and_then(|s| c03::read_lens(s)).unwrap_or_default();
+            let is_table = guard(|| { let mut lx = lexer_at(&buf, pos); match lx.next() { Ok(w) if w.equals(b"xref") => "t".into(), _ => "s".into() } });
+            let m: Vec<&str> = model.split(' ').collect();
+            // model `table <subs> <dict> <pos>`: the dictionary in the canonical notation of the harness
+            let expected = if m.len() == 4 && m[0] == "table" {
+                match read_val(m[2]) { Some(v) => format!("table {} {} {}", m[1], show_canon(&v), m[3]), None => format!("unreadable:{}", model) }
+            } else if m.first() == Some(&"stream") { "stream".to_string() } else { model.to_string() };
+            let imp = guard(|| {
+                let res = TestResolve::new(&lens, false);
+                let mut lx = lexer_at(&buf, pos);
+                match pdf::parser::read_xref_and_trailer_at(&mut lx, &res) {
+                    Ok((secs, dict)) => {
+                        if is_table != "t" { return "stream".into(); }
+                        let subs: Vec<String> = secs.iter().map(|s| format!("{}={}", s.first_id, s.entries.iter().map(|e| match e {
+                            pdf::xref::XRef::Free { next_obj_nr, gen_nr } => format!("f{}.{}", next_obj_nr, gen_nr),
+                            pdf::xref::XRef::Raw { pos, gen_nr } => format!("n{}.{}", pos, gen_nr),
+                            pdf::xref::XRef::Stream { stream_id, index } => format!("s{}.{}", stream_id, index),
+                            pdf::xref::XRef::Promised => "p".into(),
+                            pdf::xref::XRef::Invalid => "i".into(),
+                        }).collect::<Vec<_>>().join(","))).collect();
+                        let v = prim_to_val(&Primitive::Dictionary(dict), &res);
+                        format!("table {} {} {}", if subs.is_empty() { "-".to_string() } else { subs.join(";") }, show_canon(&v), lx.get_pos())
+                    }
+                    Err(_) => if is_table == "t" || expected != "stream" { "err".into() } else { "stream".into() },
+                }
+            });
+            (expected, imp)
+        }
+        _ => (model.to_string(), "unsupported-request".into()),
+    }
+}
+
+fn both(req: &str, model: &str) -> (String, String) {
+    if req.starts_with("c03.") { c03::both_sides(req, model) } else { both_c01(req, model) }
+}
+
+/// what a request calls, for the oracle's signature
+fn entry_point(req: &str) -> String {
+    let f: Vec<&str> = req.splitn(3, ' ').collect();
+    match f[0] {
+        "c03.word" => "Lexer::next".into(),
+        "c03.peek" => "Lexer::peek".into(),
+        "c03.back" => "Lexer::back".into(),
+        "c03.expect" => "Lexer::next_expect".into(),
+        "c03.nextstream" => "Lexer::next_stream".into(),
+        "c03.readn" => "Lexer::read_n".into(),
+        "c03.setpos" => "Lexer::set_pos".into(),
+        "c03.offsetpos" => "Lexer::offset_pos".into(),
+        "c03.litstr" => "StringLexer".into(),
+        "c03.hexstr" => "HexStringLexer".into(),
+        "c03.tok" => "Substr::{is_integer,real_number,to}".into(),
+        "c03.parse" => match f.get(1) { Some(&"plain") => "parse_with_lexer".into(), Some(&"stm") => "parse_stream".into(), _ => "parse_indirect_object".into() },
+        "c01.seek" => "Lexer::seek_substr".into(),
+        "c01.seekback" => "Lexer::seek_substr_back".into(),
+        "c01.fromend" => "Lexer::set_pos_from_end".into(),
+        "c01.newline" => "Lexer::seek_newline".into(),
+        "c01.ctx" => "Lexer::ctx".into(),
+        "c01.lexeme" => "StringLexer::next_lexeme".into(),
+        "c01.hexbyte" => "HexStringLexer::next_hex_byte".into(),
+        "c01.inline" => "content::parse_ops(inline_image)".into(),
+        "c01.xref" => "read_xref_and_trailer_at".into(),
+        x => x.to_string(),
+    }
+}
+
+pub struct Runner<'a> {
+    driver: &'a Driver,
+    /// failures recorded per signature (a few each: the list must keep room for other signatures)
+    per_sig: std::collections::HashMap<String, u32>,
+    pub oracle: Oracle,
+    /// set when a real function did not come back: the streams stop
+    pub hung: bool,
+    seed: u64,
+}
+
+impl<'a> Runner<'a> {
+    pub fn new(driver: &'a Driver, seed: u64) -> Runner<'a> {
+        Runner { driver, per_sig: Default::default(), oracle: Oracle::new("c01.entry"), hung: false, seed }
+    }
+
+    /// asks the model, runs the implementation (in a worker thread, watched), records every case
+    pub fn compare(&mut self, st: &mut Stream, reqs: Vec<String>) {
+        if self.hung || reqs.is_empty() {
+            return;
+        }
+        let models = self.driver.ask(&reqs);
+        let reqs = Arc::new(reqs);
+        let models = Arc::new(models);
+        let (tx, rx) = mpsc::channel::<(String, String)>();
+        {
+            let (reqs, models) = (reqs.clone(), models.clone());
+            std::thread::Builder::new().stack_size(32 << 20).spawn(move || {
+                for (rq, m) in reqs.iter().zip(models.iter()) {
+                    if tx.send(both(rq, m)).is_err() {
+                        break;
+                    }
+                }
+            }).expect("spawn worker");
+        }
+        for (i, rq) in reqs.iter().enumerate() {
+            match rx.recv_timeout(Duration::from_secs(10)) {
+                Ok((m, im)) => {
+                    st.count(&format!("outcome={}", m.split(' ').next().unwrap_or("")));
+                    let buf_empty = rq.split(' ').any(|f| f == "-");
+                    st.case(rq, &m, &im, !buf_empty);
+                    self.oracle.cases += 1;
+                    if im == "panic" || im.starts_with("panic") {
+                        let ep = entry_point(rq);
+                        let sig = format!("panic@{}", ep);
+                        let k = self.per_sig.entry(sig.clone()).or_insert(0);
+                        *k += 1;
+                        self.oracle.count(&format!("failures:{}", sig));
+                        if *k <= 3 {
+                            self.oracle.fail(&sig, &format!("{} panicked on arbitrary input (stream {}, request `{}`)", ep, st.name, trunc(rq)),
+                                json!({"stream": st.name, "seed": self.seed, "case": i, "disagreement": {"stream": st.name, "request": rq, "model": m, "impl": im}}));
+                        }
+                    }
+                }
+                Err(_) => {
+                    let ep = entry_point(rq);
+                    self.hung = true;
+                    self.oracle.fail(&format!("hang@{}", ep), &format!("{} did not return within 10 s (stream {}); the remaining streams were not run", ep, st.name),
+                        json!({"stream": st.name, "seed": self.seed, "case": i, "disagreement": {"stream": st.name, "request": rq, "model": models[i], "impl": "hang"}}));
+                    st.case(rq, &models[i], "hang", true);
+                    return;
+                }
+            }
+        }
+    }
+}
+
+// ---------------------------------------------------------------------------------------------------
+// generators
+
+const ALPHABET24: [u8; 24] = [0, 9, 10, 12, 13, 32, b'(', b')', b'<', b'>', b'[', b']', b'{', b'}', b'/', b'%', b'a', b'1', b'-', b'+', b'.', b'#', b'\\', 0x80];
+const STRUCT: &[u8] = b"()<>[]{}/% \n\r\t\x0c\x000123456789+-.#\\abcdefnrtRstreamobjxEIDBLength";
+const PATS: [&[u8]; 8] = [b"\nEI", b"endobj", b"startxref", b"a", b"ab", b"\n", b"%%EOF", b">>"];
+
+fn rand_buf(rng: &mut Rng, max: usize) -> Vec<u8> {
+    let n = rng.usize(max + 1);
+    match rng.below(3) {
+        0 => rng.bytes(n),
+        1 => (0..n).map(|_| *rng.pick(STRUCT)).collect(),
+        _ => (0..n).map(|_| if rng.chance(1, 5) { rng.byte() } else { *rng.pick(STRUCT) }).collect(),
+    }
+}
+
+fn pick_n(rng: &mut Rng, len: usize, pos: usize) -> usize {
+    let rem = len - pos.min(len);
+    match rng.below(8) {
+        0 => rem,
+        1 => rem + 1,
+        2 => rem.saturating_sub(1),
+        3 => *rng.pick(&[usize::MAX, usize::MAX - pos, (usize::MAX - pos).wrapping_add(1), usize::MAX / 2, 1 << 31, 50]),
+        4 => 0,
+        _ => rng.usize(len + 3),
+    }
+}
+
+/// one lexer-level request on `buf` at `pos`
+fn lex_request(rng: &mut Rng, buf: &[u8], pos: usize) -> String {
+    let h = hex(buf);
+    match rng.below(21) {
+        0 | 1 => format!("c03.word {} {}", h, pos),
+        2 => format!("c03.peek {} {}", h, pos),
+        3 => format!("c03.back {} {}", h, pos),
+        4 => format!("c03.expect {} {} {}", h, pos, hex(*rng.pick(&[&b"obj"[..], b"endobj", b"endstream", b"R", b"stream"]))),
+        5 => format!("c03.nextstream {} {}", h, pos),
+        6 => format!("c03.readn {} {} {}", h, pos, pick_n(rng, buf.len(), pos)),
+        7 => format!("c03.setpos {} {} {}", h, pos, pick_n(rng, buf.len(), 0)),
+        8 => format!("c03.offsetpos {} {} {}", h, pos, pick_n(rng, buf.len(), pos)),
+        9 => format!("c01.fromend {} {} {}", h, pos, pick_n(rng, buf.len(), 0)),
+        10 | 11 => {
+            let pat: Vec<u8> = if !buf.is_empty() && rng.chance(1, 2) { let a = rng.usize(buf.len()); let l = 1 + rng.usize(3.min(buf.len() - a)); buf[a..a + l].to_vec() } else { rng.pick(&PATS).to_vec() };
+            format!("{} {} {} {}", if rng.chance(1, 2) { "c01.seek" } else { "c01.seekback" }, h, pos, hex(&pat))
+        }
+        12 => format!("c01.newline {} {}", h, pos),
+        13 => format!("c01.ctx {} {}", h, pos),
+        14 => format!("c01.lexeme {} {}", h, pos),
+        15 => format!("c01.hexbyte {} {}", h, pos),
+        16 => format!("c03.litstr {} {}", h, pos),
+        17 => format!("c03.hexstr {} {}", h, pos),
+        18 => format!("c03.tok {}", hex(&buf[pos.min(buf.len())..(pos + 12).min(buf.len())])),
+        _ => parse_request("plain", buf, pos, 1023, 0, &vec![], None),
+    }
+}
+
+fn exhaustive_stream(run: &mut Runner, thorough: bool) -> Stream {
+    let mut st = Stream::new("c01.lex.exhaustive", true);
+    st.exhaustive = true;
+    let mut bufs: Vec<Vec<u8>> = vec![vec![]];
+    for a in 0..=255u8 { bufs.push(vec![a]); }
+    for a in 0..=255u8 { for b in 0..=255u8 { bufs.push(vec![a, b]); } }
+    if thorough {
+        for &a in &ALPHABET24 { for &b in &ALPHABET24 { for &c in &ALPHABET24 { bufs.push(vec![a, b, c]); } } }
+    }
+    // operations without a parameter: every buffer, every cursor
+    let plain_ops = ["c03.word", "c03.peek", "c03.back", "c03.nextstream", "c01.newline", "c01.ctx", "c01.lexeme", "c01.hexbyte", "c03.litstr", "c03.hexstr"];
+    for op in plain_ops {
+        let mut reqs = Vec::with_capacity(bufs.len() * 3);
+        for b in &bufs { let h = hex(b); for p in 0..=b.len() { reqs.push(format!("{} {} {}", op, h, p)); } }
+        st.count(&format!("op={}", op));
+        run.compare(&mut st, reqs);
+    }
+    // the parser (all kinds allowed) and the two string loops
+    let mut reqs = Vec::with_capacity(bufs.len() * 3);
+    for b in &bufs { for p in 0..=b.len() { reqs.push(parse_request("plain", b, p, 1023, 0, &vec![], None)); } }
+    st.count("op=c03.parse plain");
+    run.compare(&mut st, reqs);
+    let mut reqs = vec![];
+    for b in &bufs { reqs.push(parse_request("ind1", b, 0, 1023, 0, &vec![], None)); reqs.push(parse_request("stm", b, 0, 1023, 0, &vec![], Some((1, 0)))); reqs.push(format!("c01.xref {} 0 -", hex(b))); }
+    st.count("op=c03.parse ind1/stm, c01.xref");
+    run.compare(&mut st, reqs);
+    // operations with a number: a few values around the buffer's length and the extremes
+    let mut reqs = vec![];
+    for b in &bufs {
+        let h = hex(b);
+        for p in 0..=b.len() {
+            for n in [0usize, 1, 2, 3, usize::MAX] {
+                reqs.push(format!("c03.readn {} {} {}", h, p, n));
+                reqs.push(format!("c03.setpos {} {} {}", h, p, n));
+                reqs.push(format!("c03.offsetpos {} {} {}", h, p, n));
+                reqs.push(format!("c01.fromend {} {} {}", h, p, n));
+            }
+        }
+    }
+    st.count("op=read_n/set_pos/offset_pos/set_pos_from_end");
+    run.compare(&mut st, reqs);
+    // searches: the pattern is the buffer's own first byte, its two bytes, and a byte that is absent
+    let mut reqs = vec![];
+    for b in &bufs {
+        let h = hex(b);
+        let mut pats: Vec<Vec<u8>> = vec![vec![b'\n'], vec![b'a', b'b']];
+        if !b.is_empty() { pats.push(vec![b[0]]); pats.push(b.clone()); }
+        if b.len() == 2 { pats.push(vec![b[1]]); }
+        for p in 0..=b.len() { for pat in &pats { reqs.push(format!("c01.seek {} {} {}", h, p, hex(pat))); reqs.push(format!("c01.seekback {} {} {}", h, p, hex(pat))); } }
+        reqs.push(format!("c03.expect {} 0 {}", h, hex(b"R")));
+    }
+    st.count("op=seek_substr/seek_substr_back/next_expect");
+    run.compare(&mut st, reqs);
+    st
+}
+
+fn random_streams(run: &mut Runner, seed: u64, n: u64) -> Vec<Stream> {
+    let mut a = Stream::new("c01.lex.random", true);
+    let mut reqs = vec![];
+    for case in 0..n {
+        let mut rng = Rng::derive(seed, "c01.lex.random", case);
+        let buf = rand_buf(&mut rng, 48);
+        let pos = rng.usize(buf.len() + 1);
+        let rq = lex_request(&mut rng, &buf, pos);
+        a.count(&format!("op={}", rq.split(' ').next().unwrap_or("")));
+        reqs.push(rq);
+    }
+    run.compare(&mut a, reqs);
+    let mut b = Stream::new("c01.lex.soup", true);
+    let mut reqs = vec![];
+    for case in 0..n {
+        let mut rng = Rng::derive(seed, "c01.lex.soup", case);
+        let buf = gen_soup(&mut rng, 60);
+        let pos = rng.usize(buf.len() + 1);
+        let rq = lex_request(&mut rng, &buf, pos);
+        b.count(&format!("op={}", rq.split(' ').next().unwrap_or("")));
+        reqs.push(rq);
+    }
+    run.compare(&mut b, reqs);
+    vec![a, b]
+}
+
+fn str_stream(run: &mut Runner, seed: u64, n: u64) -> Stream {
+    let mut st = Stream::new("c01.str", true);
+    let mut reqs = vec![];
+    const LIT: [&[u8]; 20] = [b"\\", b"(", b")", b"\r", b"\n", b"\\\r", b"\\\n", b"\\\r\n", b"7", b"8", b"0", b"a", b"\\12", b"\\777", b"\xff", b"n", b"\\(", b"\\)", b"\\\\", b"\\q"];
+    for case in 0..n {
+        let mut rng = Rng::derive(seed, "c01.str", case);
+        let is_hex = rng.chance(1, 3);
+        let mut buf = vec![];
+        if is_hex {
+            for _ in 0..rng.usize(14) { buf.push(*rng.pick(b"0123456789abcdefABCDEF> \n\r\t\x0c\x00gG<x>")); }
+        } else if rng.chance(1, 40) {
+            // a long run of line continuations (the loop of next_lexeme), ended or not
+            let k = 1 + rng.usize(3000);
+            let c: &[u8] = *rng.pick(&[&b"\\\n"[..], b"\\\r", b"\\\r\n"]);
+            for _ in 0..k { buf.extend_from_slice(c); }
+            if rng.chance(2, 3) { buf.extend_from_slice(b"x)"); }
+        } else {
+            for _ in 0..rng.usize(14) { buf.extend_from_slice(*rng.pick(&LIT)); }
+        }
+        let pos = rng.usize(buf.len().min(4) + 1);
+        let h = hex(&buf);
+        let rq = match (is_hex, rng.below(3)) {
+            (true, 0) => format!("c01.hexbyte {} {}", h, pos),
+            (true, _) => format!("c03.hexstr {} {}", h, pos),
+            (false, 0) => format!("c01.lexeme {} {}", h, pos),
+            (false, _) => format!("c03.litstr {} {}", h, pos),
+        };
+        st.count(&format!("op={}", rq.split(' ').next().unwrap_or("")));
+        reqs.push(rq);
+    }
+    run.compare(&mut st, reqs);
+    st
+}
+
+fn rand_lens(rng: &mut Rng) -> LenMap {
+    let mut l = vec![];
+    for _ in 0..rng.usize(3) { l.push(((rng.below(4), rng.below(2)), *rng.pick(&[0u64, 1, 3, 5, 40, 2147483647]))); }
+    l
+}
+
+fn rand_mode(rng: &mut Rng) -> (&'static str, Option<(u64, u64)>) {
+    match rng.below(6) {
+        0 | 1 | 2 => ("plain", None),
+        3 => ("ind0", None),
+        4 => ("ind1", None),
+        _ => ("stm", Some((rng.below(5), rng.below(2)))),
+    }
+}
+
+fn rand_flags(rng: &mut Rng) -> u16 {
+    match rng.below(4) { 0 | 1 => 1023, 2 => 1 << rng.below(10), _ => (rng.next() & 1023) as u16 }
+}
+
+fn parse_random_stream(run: &mut Runner, seed: u64, n: u64) -> Stream {
+    let mut st = Stream::new("c01.parse.random", true);
+    let mut reqs = vec![];
+    const PIECES: [&[u8]; 30] = [b"<<", b">>", b"[", b"]", b"(", b")", b"<", b">", b"/", b"/Length", b" ", b"\n", b"1", b"0", b"-7", b"2.5", b"R", b"obj", b"endobj",
+        b"stream\n", b"stream\r\n", b"endstream", b"true", b"null", b"%c\n", b"\\", b"4 0 R", b"1 0 obj", b"/Length 3", b"abc"];
+    for case in 0..n {
+        let mut rng = Rng::derive(seed, "c01.parse.random", case);
+        let buf = match rng.below(3) {
+            0 => rand_buf(&mut rng, 64),
+            1 => gen_soup(&mut rng, 80),
+            _ => { let mut b = vec![]; for _ in 0..rng.usize(16) { b.extend_from_slice(*rng.pick(&PIECES)); if rng.chance(1, 2) { b.push(b' '); } } b }
+        };
+        let (mode, ctx) = rand_mode(&mut rng);
+        let pos = if mode == "stm" || rng.chance(2, 3) { 0 } else { rng.usize(buf.len() + 1) };
+        let off = if rng.chance(1, 5) { rng.usize(1000) } else { 0 };
+        let lens = rand_lens(&mut rng);
+        st.count(&format!("mode={}", mode));
+        reqs.push(parse_request(mode, &buf, pos, rand_flags(&mut rng), off, &lens, ctx));
+    }
+    run.compare(&mut st, reqs);
+    st
+}
+
+fn parse_mutated_stream(run: &mut Runner, seed: u64, n: u64) -> Stream {
+    let mut st = Stream::new("c01.parse.mutated", true);
+    let mut reqs = vec![];
+    for case in 0..n {
+        let mut rng = Rng::derive(seed, "c01.parse.mutated", case);
+        let cfg = GenCfg { bad_name_pct: 2, wild_names: false };
+        let tail: &[u8] = *rng.pick(&TAILS);
+        let (c, mode) = match rng.below(4) {
+            0 | 1 => { let v = gen_val(&mut rng, 0, &cfg); (render_random(&mut rng, "val", v, tail, (1, 0), vec![]), "plain") }
+            2 => { let v = gen_val(&mut rng, 0, &cfg); (render_random(&mut rng, "ind", v, tail, (7, 0), vec![]), if rng.chance(1, 2) { "ind0" } else { "ind1" }) }
+            _ => { let (v, lens) = gen_stream(&mut rng, &cfg, true); (render_random(&mut rng, "ind", v, tail, (7, 0), lens), if rng.chance(1, 2) { "ind0" } else { "ind1" }) }
+        };
+        let mut buf = c.text.clone();
+        mutate(&mut rng, &mut buf);
+        st.count(&format!("mode={}", mode));
+        reqs.push(parse_request(mode, &buf, 0, rand_flags(&mut rng), 0, &c.lens, None));
+    }
+    run.compare(&mut st, reqs);
+    st
+}
+
+fn corpus_stream(run: &mut Runner, seed: u64, n: u64) -> Stream {
+    let mut st = Stream::new("c01.parse.corpus", true);
+    let mut files: Vec<(String, Vec<u8>)> = vec![];
+    let mut hung = false;
+    for (name, b) in corpus::fixture_files() {
+        if b.len() <= 400_000 {
+            if !hung {
+                let b2 = b.clone();
+                match with_timeout(30, move || corpus::normalise(&b2)) {
+                    Some(Some(nb)) => files.push((format!("{}(norm)", name), nb)),
+                    Some(None) => {}
+                    None => hung = true, // reported by the walker oracle (c01.rs); raw slices only from here on
+                }
+            }
+            files.push((name, b));
+        }
+    }
+    if files.is_empty() {
+        return st;
+    }
+    let mut reqs = vec![];
+    for case in 0..n {
+        let mut rng = Rng::derive(seed, "c01.parse.corpus", case);
+        let (name, b) = rng.pick(&files);
+        // an object start (`obj` keyword, back to the start of its line) or any offset
+        let mut start = rng.usize(b.len());
+        let mut at_obj = false;
+        if rng.chance(3, 4) {
+            if let Some(i) = b[start..].windows(4).position(|w| w == b" obj") {
+                let k = start + i;
+                start = b[..k].iter().rposition(|&c| c == b'\n' || c == b'\r').map(|x| x + 1).unwrap_or(0);
+                at_obj = true;
+            }
+        }
+        let len = 1 + rng.usize(360);
+        let mut slice = b[start..(start + len).min(b.len())].to_vec();
+        if rng.chance(1, 3) { mutate(&mut rng, &mut slice); }
+        let mode = if at_obj { *rng.pick(&["ind0", "ind1", "ind1", "plain"]) } else { *rng.pick(&["plain", "plain", "ind1"]) };
+        st.count(&format!("file={}", if name.ends_with("(norm)") { "normalised" } else { "raw" }));
+        st.count(&format!("at={}", if at_obj { "object" } else { "offset" }));
+        let lens = rand_lens(&mut rng);
+        reqs.push(parse_request(mode, &slice, 0, 1023, 0, &lens, None));
+        if rng.chance(1, 6) { reqs.push(lex_request(&mut rng, &slice, 0)); }
+    }
+    run.compare(&mut st, reqs);
+    st
+}
+
+fn deep_stream(run: &mut Runner) -> Stream {
+    let mut st = Stream::new("c01.parse.deep", true);
+    let mut reqs = vec![];
+    for depth in [1usize, 18, 19, 20, 21, 22, 23, 60, 400] {
+        for kind in 0..4 {
+            let (mut open, mut close): (Vec<u8>, Vec<u8>) = (vec![], vec![]);
+            for i in 0..depth {
+                let dict = match kind { 0 => false, 1 => true, 2 => i % 2 == 0, _ => i % 3 == 0 };
+                if dict { open.extend_from_slice(b"<</K "); close.splice(0..0, b">>".iter().cloned()); } else { open.push(b'['); close.insert(0, b']'); }
+            }
+            let mut full = open.clone(); full.extend_from_slice(b"1 "); full.extend_from_slice(&close);
+            reqs.push(parse_request("plain", &full, 0, 1023, 0, &vec![], None));
+            reqs.push(parse_request("plain", &open, 0, 1023, 0, &vec![], None));
+            let mut ind = b"3 0 obj ".to_vec(); ind.extend_from_slice(&full); ind.extend_from_slice(b" endobj");
+            reqs.push(parse_request("ind1", &ind, 0, 1023, 0, &vec![], None));
+            st.count(&format!("depth={}", depth));
+        }
+    }
+    run.compare(&mut st, reqs);
+    st
+}
+
+fn inline_stream(run: &mut Runner, seed: u64, n: u64) -> Stream {
+    let mut st = Stream::new("c01.inline", true);
+    let mut reqs = vec![];
+    for case in 0..n {
+        let mut rng = Rng::derive(seed, "c01.inline", case);
+        // `img_ok`: do the typed entries of the dictionary convert (the model takes that as a parameter)
+        let (mut buf, img_ok) = match rng.below(6) {
+            0 => (b"BI /W 1 /H 1 ID".to_vec(), 1),
+            1 => (b"BI ID".to_vec(), 0),                         // no /W, /H
+            2 => (b"BI /W 1 /H (x) ID".to_vec(), 0),             // /H is not a number
+            3 => (b"BI /W 1 (x) 3 ID".to_vec(), 1),              // a key that is not a name: fails before `ID`
+            _ => (b"BI /W 1 /H 1 /BPC 8 /CS /G ID".to_vec(), 1),
+        };
+        for _ in 0..rng.usize(12) {
+            match rng.below(5) { 0 => buf.extend_from_slice(b"\nEI"), 1 => buf.push(rng.byte()), 2 => buf.extend_from_slice(b"EI"), 3 => buf.push(b'\n'), _ => buf.push(*rng.pick(b"Ax \r0Q")) }
+        }
+        if rng.chance(3, 4) { buf.extend_from_slice(*rng.pick(&[&b"\nEI"[..], b"\nEI Q", b"\nEI\n", b" EI", b"\rEI ", b"\nEIx", b"\nEI/", b"\nEI q BI /W 1 /H 1 ID y\nEI Q"])); }
+        st.count(&format!("terminated={}", buf.windows(3).any(|w| w == b"\nEI")));
+        reqs.push(format!("c01.inline {} {} {}", inline_search(), hex(&buf), img_ok));
+    }
+    run.compare(&mut st, reqs);
+    st
+}
+
+fn xref_stream(run: &mut Runner, seed: u64, n: u64) -> Stream {
+    let mut st = Stream::new("c01.xref", true);
+    let mut reqs = vec![];
+    for case in 0..n {
+        let mut rng = Rng::derive(seed, "c01.xref", case);
+        let mut buf = vec![];
+        let kind = rng.below(8);
+        if kind < 6 {
+            buf.extend_from_slice(b"xref\n");
+            for _ in 0..rng.usize(3) {
+                let cnt = rng.usize(4);
+                let claimed = match rng.below(8) { 0 => cnt + 1, 1 => 4294967295, 2 => 4294967296, 3 => cnt.saturating_sub(1), _ => cnt };
+                buf.extend_from_slice(format!("{} {}\n", rng.below(5), claimed).as_bytes());
+                for _ in 0..cnt {
+                    let line = match rng.below(8) {
+                        0 => format!("{} {} x \n", rng.below(99), rng.below(3)),
+                        1 => format!("{:010} {:05}\n", rng.below(999), rng.below(3)),
+                        2 => format!("18446744073709551616 0 n \n"),
+                        _ => format!("{:010} {:05} {} \n", rng.below(99999), if rng.chance(1, 4) { 65535 } else { rng.below(3) }, if rng.chance(1, 3) { 'f' } else { 'n' }),
+                    };
+                    buf.extend_from_slice(line.as_bytes());
+                }
+            }
+            if rng.chance(5, 6) { buf.extend_from_slice(b"trailer\n"); }
+            buf.extend_from_slice(*rng.pick(&[&b"<</Size 4/Root 1 0 R>>"[..], b"<</Size 4", b"[1]", b"<<>>", b"", b"<</Size 4/Prev 10>>\nstartxref\n0\n%%EOF"]));
+            if rng.chance(1, 4) { mutate(&mut rng, &mut buf); }
+        } else if kind == 6 {
+            // a cross-reference stream head
+            buf.extend_from_slice(*rng.pick(&[&b"5 0 obj\n<</Type/XRef/Size 2/W[1 1 1]/Length 6>>\nstream\n\x00\x00\xff\x01\x10\x00\nendstream\nendobj\nstartxref"[..],
+                b"5 0 obj\n<</Type/XRef/Length 0>>\nstream\n\nendstream\nendobj", b"5 0 obj <<>> endobj", b"5 0 obj\n<</Length 1 0 R>>\nstream\nabc\nendstream\nendobj\ntrailer\n<</Size 1>>"]));
+            if rng.chance(1, 3) { mutate(&mut rng, &mut buf); }
+        } else {
+            buf = gen_soup(&mut rng, 60);
+        }
+        let pos = if rng.chance(4, 5) { 0 } else { rng.usize(buf.len() + 1) };
+        let lens = rand_lens(&mut rng);
+        st.count(&format!("kind={}", if kind < 6 { "table" } else if kind == 6 { "stream" } else { "soup" }));
+        reqs.push(format!("c01.xref {} {} {}", hex(&buf), pos, c03::show_lens(&lens)));
+    }
+    run.compare(&mut st, reqs);
+    st
+}
+
+pub fn streams(driver: &Driver, seed: u64, thorough: bool) -> (Vec<Stream>, Oracle) {
+    let mut run = Runner::new(driver, seed);
+    let k: u64 = if thorough { 40 } else { 1 };
+    let mut out = vec![];
+    out.push(exhaustive_stream(&mut run, thorough));
+    out.extend(random_streams(&mut run, seed, 40_000 * k));
+    out.push(str_stream(&mut run, seed, 20_000 * k));
+    out.push(parse_random_stream(&mut run, seed, 40_000 * k));
+    out.push(parse_mutated_stream(&mut run, seed, 30_000 * k));
+    out.push(corpus_stream(&mut run, seed, 6_000 * k));
+    out.push(deep_stream(&mut run));
+    out.push(inline_stream(&mut run, seed, 6_000 * k));
+    out.push(xref_stream(&mut run, seed, 10_000 * k));
+    (out, run.oracle)
+}
+
+/// re-runs a stored disagreement / entry-point failure: the same request to both sides
+pub fn replay(driver: &Driver, r: &serde_json::Value) -> Option<(Stream, Oracle)> {
+    let req = r["disagreement"]["request"].as_str()?;
+    let name = r["stream"].as_str().unwrap_or("c01.replay");
+    let mut run = Runner::new(driver, r["seed"].as_u64().unwrap_or(0));
+    let mut st = Stream::new(name, true);
+    run.compare(&mut st, vec![req.to_string()]);
+    Some((st, run.oracle))
 }
